@@ -677,7 +677,7 @@ int KSI_FsClient_setPublicationUrl(KSI_NetworkClient *client, const char *path) 
 
 int KSI_FsClient_extractPath(const char *uri, char **path) {
 	int res = KSI_UNKNOWN_ERROR;
-	const char *scheme = "file://";
+	const char *scheme = "://";
 	char *pathStart = NULL;
 	char *tmpPath = NULL;
 
@@ -686,11 +686,12 @@ int KSI_FsClient_extractPath(const char *uri, char **path) {
 		goto cleanup;
 	}
 
-	pathStart = strstr(uri, scheme) + strlen(scheme);
+	pathStart = strstr(uri, scheme);
 	if (pathStart == NULL) {
 		res = KSI_INVALID_ARGUMENT;
 		goto cleanup;
 	}
+	pathStart += strlen(scheme);
 
 	tmpPath = KSI_malloc(strlen(pathStart) + 1);
 	if (tmpPath == NULL) {
